@@ -28,6 +28,11 @@ def drive(ctx, name: str, strategy, body, max_examples: int, phases=None) -> Non
         test()
     except _BudgetSpent:
         pass
+    except Exception as e:
+        # Hypothesis re-executes some examples (replay of the failing one, its own consistency checks); when the budget runs out
+        # between two executions of one example it reports the difference as flakiness. That is still only the budget.
+        if not (ctx.inconclusive and "_BudgetSpent" in (repr(e) + "".join(repr(x) for x in getattr(e, "exceptions", ())))):
+            raise
 
 
 def drive_machine(ctx, name: str, machine_cls, max_examples: int, steps: int) -> None:
